@@ -567,8 +567,19 @@ def cross_eq(x, y):
     p = x.f.numer * y.f.denom - y.f.numer * x.f.denom
     if c.sqrt_gens and c._needs_reduce(p):
         p = c._reduce_sqrt(p).numer
-    if c.defs:
-        p = c.unfold(p)
+    if c.defs and p:
+        p = c.unfold(p)  # only if the identity does not already hold at the level of the named atoms
+    return Formula.rel(p, "==0")
+
+
+def cross_eq_folded(x, y):
+    """x == y as a relation over the named atoms (no unfolding): used to add an identity that was proved with unfolding
+    to the path condition as a lemma the linear abstraction can use"""
+    c = ctx()
+    x, y = SReal.lift(x), SReal.lift(y)
+    p = x.f.numer * y.f.denom - y.f.numer * x.f.denom
+    if c.sqrt_gens and c._needs_reduce(p):
+        p = c._reduce_sqrt(p).numer
     return Formula.rel(p, "==0")
 
 
@@ -579,8 +590,8 @@ def cross_prod_is_one(x, y):
     p = x.f.numer * y.f.numer - x.f.denom * y.f.denom
     if c.sqrt_gens and c._needs_reduce(p):
         p = c._reduce_sqrt(p).numer
-    if c.defs:
-        p = c.unfold(p)
+    if c.defs and p:
+        p = c.unfold(p)  # only if the identity does not already hold at the level of the named atoms
     return Formula.rel(p, "==0")
 
 
@@ -770,7 +781,7 @@ class Ctx:
         """relation `d op` for SReal d (a rational function): clear the denominator."""
         n, q = d.f.numer, d.f.denom
         if op in ("==0", "!=0"):
-            if self.defs and not n.is_ground:
+            if self.defs and not n.is_ground and n:
                 n = self.unfold(n)
             return Formula.rel(n, op)
         if q.is_ground:
